@@ -56,8 +56,13 @@ struct W {
 }
 
 fn silent_addr(i: usize) -> SocketAddr {
-    // away from the servers' own addresses (i and i + 20)
-    server_addr(100 + i)
+    // away from the servers' own addresses (i and i + 20); every other one is a dead sibling process on the live server's own host
+    // (same ip, another port)
+    if i % 2 == 1 {
+        SocketAddr::new(server_addr(0).ip(), 5001 + i as u16)
+    } else {
+        server_addr(100 + i)
+    }
 }
 
 impl W {
@@ -369,7 +374,7 @@ impl Property for C18 {
         "fault_enumeration"
     }
     fn rule(&self) -> String {
-        "A case = secure server with a client limit of 1-3 at construction, raised or lowered at run time in some cases; 1-4 honest clients on distinct addresses spawned at any time, token timeouts 1-15 s or disabled, 1-3 server addresses of which a prefix is silent (the first of them, in some cases, a second server that answers the request with a challenge and is never heard of again); ticks of 10 ms - 1 s around the 250 ms send rate; per-datagram loss / delay by 1-3 ticks / duplication in both directions during and after the handshake, whole-silence periods per client, the server application streaming a payload to every connected client each tick in some cases, forged and replayed datagrams presented to both sides during silences. A model keeps, per side, the time of the last authentic and fresh packet accepted (genuine datagram delivered for the first time to the endpoint holding that session). Oracles at every update: a peer whose last accepted packet is older than its timeout is reported disconnected by that update (server: ClientDisconnected; client: ConnectionTimedOut), one whose accepted packets are not further apart is not; half-open sessions are gone after their token's expiry second; a denial only happens when the server was full or the id/address was taken during that attempt. Enumerated besides the histories: every address-list length 1-32 with every position of the single answering address (or none), four timeout / tick combinations, delivered at once, with the first datagram to the answering server lost, or with one tick of latency each way - the client must walk the list, connect at the answering address or end disconnected when the list is exhausted, within (timeout/tick + 3) updates per address. After faults stop: every client still connecting whose attempt never met a full server or a taken id/address, with an unexpired token and timeouts enabled when addresses are silent, is connected on both sides within sum(timeouts of the remaining silent addresses) + 8*max(250 ms, tick) + 1 s. Non-trivial: a handshake datagram of at least two of the four kinds was lost, or a silent first address, a raised limit, or a forged packet during a silence occurred, and the heal obligation was evaluated. Distinct = hash of the decoded operation trace.".into()
+        "A case = secure server with a client limit of 1-3 at construction, raised or lowered at run time in some cases; 1-4 honest clients on distinct addresses spawned at any time, token timeouts 1-15 s or disabled, 1-3 server addresses of which a prefix is silent (the first of them, in some cases, a second server that answers the request with a challenge and is never heard of again); ticks of 10 ms - 1 s around the 250 ms send rate; per-datagram loss / delay by 1-3 ticks / duplication in both directions during and after the handshake, whole-silence periods per client, the server application streaming a payload to every connected client each tick in some cases, forged and replayed datagrams presented to both sides during silences, among them the replies of the handshake phase (denied, challenge) the server once addressed to a client, presented again once that client is connected; every other silent address is a dead port on the answering server's own ip. A model keeps, per side, the time of the last authentic and fresh packet accepted (genuine datagram delivered for the first time to the endpoint holding that session). Oracles at every update: a peer whose last accepted packet is older than its timeout is reported disconnected by that update (server: ClientDisconnected; client: ConnectionTimedOut), one whose accepted packets are not further apart is not; half-open sessions are gone after their token's expiry second; a denial only happens when the server was full or the id/address was taken during that attempt. Enumerated besides the histories: every address-list length 1-32 with every position of the single answering address (or none), four timeout / tick combinations, delivered at once, with the first datagram to the answering server lost, or with one tick of latency each way - the client must walk the list, connect at the answering address or end disconnected when the list is exhausted, within (timeout/tick + 3) updates per address. After faults stop: every client still connecting whose attempt never met a full server or a taken id/address, with an unexpired token and timeouts enabled when addresses are silent, is connected on both sides within sum(timeouts of the remaining silent addresses) + 8*max(250 ms, tick) + 1 s. Non-trivial: a handshake datagram of at least two of the four kinds was lost, or a silent first address, a raised limit, or a forged packet during a silence occurred, and the heal obligation was evaluated. Distinct = hash of the decoded operation trace.".into()
     }
     fn assumptions(&self) -> Vec<String> {
         vec![
@@ -382,7 +387,7 @@ impl Property for C18 {
         PbtCfg { cases: tier.pick(200_000, 4_000_000), max_len: tier.pick(500, 1600), shrink_ms: 120_000 }
     }
     fn required_labels(&self) -> Vec<&'static str> {
-        vec!["lost_request", "lost_challenge", "lost_response", "lost_keepalive", "silent_first_address", "limit_raised", "limit_lowered", "forged_in_silence", "server_timeout", "client_timeout", "heal_obligation", "streaming", "timeouts_disabled", "challenge_then_silent_address", "address_list_walked", "address_list_exhausted"]
+        vec!["lost_request", "lost_challenge", "lost_response", "lost_keepalive", "silent_first_address", "limit_raised", "limit_lowered", "forged_in_silence", "server_timeout", "client_timeout", "heal_obligation", "streaming", "timeouts_disabled", "challenge_then_silent_address", "address_list_walked", "address_list_exhausted", "stale_handshake_reply", "stale_denied_at_connected_client"]
     }
     fn enums(&self, _tier: Tier) -> Vec<(&'static str, u64)> {
         // every address-list length 1..=32 x every position of the one answering address (or none) x 4 timeout / tick combinations
@@ -581,7 +586,23 @@ impl Property for C18 {
                     let pool_ids: Vec<usize> = if to_server { w.cl[c].accepted_up.clone() } else { w.cl[c].accepted_down.clone() };
                     let own_req: Option<usize> = w.nw.clients[c].sent.iter().copied().find(|&d| w.nw.pool[d].kind == 0);
                     let own_resp: Option<usize> = w.nw.clients[c].sent.iter().copied().find(|&d| w.nw.pool[d].kind == 3);
-                    let bytes: Option<Vec<u8>> = match ctx.src.below(5) {
+                    // replies of the handshake phase (denied, challenge) the server once addressed to this client, arriving late or again
+                    // at the connected client: an established session ignores them
+                    let stale: Vec<usize> = if !to_server && w.nw.clients[c].client.is_connected() {
+                        let a = w.nw.clients[c].addr;
+                        w.nw.pool.iter().enumerate().filter(|(_, d)| d.to == a && matches!(d.from, Emitter::Server(_)) && matches!(d.kind, 1 | 2)).map(|(i, _)| i).collect()
+                    } else {
+                        vec![]
+                    };
+                    let bytes: Option<Vec<u8>> = match ctx.src.below(6) {
+                        4 if !stale.is_empty() => {
+                            how = "stale_handshake_reply";
+                            ctx.label("stale_handshake_reply");
+                            if stale.iter().any(|&i| w.nw.pool[i].kind == 1) {
+                                ctx.label("stale_denied_at_connected_client");
+                            }
+                            Some(w.nw.pool[stale[ctx.src.below(stale.len())]].bytes.clone())
+                        }
                         0 if !pool_ids.is_empty() => {
                             how = "replay_accepted";
                             Some(w.nw.pool[pool_ids[ctx.src.below(pool_ids.len())]].bytes.clone())
